@@ -112,7 +112,7 @@ def _act(ctx, victim, mode, fault):
 def _state(ctx):
     return (
         kernel.snapshot(ctx.root),
-        realize.history_struct(ctx.project),
+        realize.history_struct(ctx.project, nested_time=False),
         realize.history_ids(ctx.project),
     )
 
@@ -137,8 +137,8 @@ class AtomicEngine(Engine):
     name = "atomic"
     level = "fault_enumeration"
     tiers = {
-        "quick": {"runs": 900, "wall": 110},
-        "thorough": {"runs": 30000, "wall": 1500},
+        "quick": {"runs": 4000, "wall": 150},
+        "thorough": {"runs": 150000, "wall": 1800},
     }
     components_real = [
         "rope.base.project.Project",
@@ -292,6 +292,11 @@ class AtomicEngine(Engine):
                     fired = ctx.fs.fired
                     applied = (fault["k"] - 1) if kind != "read" else len(ctx.fs.log)
                     fop = fired["op"] if fired else None
+                if ctx.fs.rollback_log:
+                    out.stats["probe_rollback_ran"] += 1
+                    out.stats["rollback_fs_calls"] += len(ctx.fs.rollback_log)
+                    if len(ctx.fs.rollback_log) >= 2:
+                        out.stats["probe_rollback_of_2plus_subchanges"] += 1
                 if fired:
                     out.stats["fired_" + kind] += 1
                     if applied > 0:
@@ -357,6 +362,19 @@ class AtomicEngine(Engine):
         bad = False
         if after[0] != s0[0]:
             bad = True
+            differing = sorted(k for k in set(after[0]) | set(s0[0]) if after[0].get(k) != s0[0].get(k))
+            # exactly one path differs and it is a file before and after (the
+            # in-flight sub-change's file, wherever the rollback has put it back)
+            one_file = (
+                len(differing) == 1
+                and isinstance(after[0].get(differing[0]), bytes)
+                and isinstance(s0[0].get(differing[0]), bytes)
+            )
+            if fault["kind"] == "torn" and fired:
+                info["only_inflight_file_differs"] = one_file
+            if fault["kind"] == "read" and fired:
+                info["read_after_apply"] = bool(fired.get("after_apply"))
+                info["only_inflight_file_differs"] = one_file
             out.violate(
                 "tree_not_restored", info,
                 {"fault": fault, "exc": repr(exc)[:200], "msg": "call raised but the tree differs from before the call",
